@@ -325,3 +325,190 @@ for _c in ("<", "<=", "≤", ">", ">=", "≥", "=", "==", "!=", "≠", "?"):
         qualname="dsl_compiler/src/emission/entity_emitter.py::_constant_comparison_row", params={"comparator": ty.TConcrete(_c), "left": ty.Int, "right": ty.Int},
         ensures=[("the row (signal-0 from no wire against 0) is true exactly when left CMP right", _ccr_post(_c))],
         properties=("C01", "C07"), min_obligations=1, no_replay=True, note=f"comparator {_c}"))
+
+
+# =================================================================================================
+# BlueprintEmitter.emit_from_plan: EVERY placement of the plan is handed to the entity factory exactly once, in the order of the
+# sorted ids; every entity the factory returns is appended to the blueprint (once, no copy) and is in the map the wiring steps
+# receive, under its placement's id; a placement the factory refuses is an ERROR (the compile fails), not a silent gap; the power
+# grid step and then the wiring step run once each on the SAME plan and map.  Plan of two placements (bounded), ids concrete.
+# PlanEntityEmitter.create_entity: a placement with a template entity (user entities) is a deep COPY of that template; otherwise a new
+# entity of the placement's type, configured by the combinator rule of its type; in both cases the property writes (when there are
+# any) are applied, the description is the formatted debug info, the id is the placement's id and the position the placement's.
+# =================================================================================================
+EM = {}
+
+
+def _em_reset(a):
+    EM.clear()
+    return True
+
+
+def _em_create(ex, a):
+    EM.setdefault("created", []).append(a.placement)
+    r = ghost(a.placement, "entity", ty.TOpt(ty.TObj("ExternalEntity", only=("ExternalEntity",))))
+    return r
+
+
+def _em_append(ex, a):
+    EM.setdefault("appended", []).append((a.args[0], dict(a.kwargs)))
+    return None
+
+
+def _em_step(kind):
+    def eff(ex, a):
+        EM.setdefault(kind, []).append((a.layout_plan, dict(a.entity_map) if isinstance(a.entity_map, dict) else a.entity_map))
+        return None
+    return eff
+
+
+def _emit_post(a, res):
+    plan = a.layout_plan
+    placements = plan.entity_placements
+    order = sorted(placements)
+    created = EM.get("created", [])
+    if len(created) != len(order) or any(c is not placements[k] for c, k in zip(created, order)):
+        return False
+    ents = [(k, placements[k]._fields.get("@entity")) for k in order]
+    kept = [(k, e) for k, e in ents if e is not None]
+    appended = EM.get("appended", [])
+    if len(appended) != len(kept) or any(x[0] is not e or x[1].get("copy") is not False for x, (_k, e) in zip(appended, kept)):
+        return False
+    if len(EM.get("errors", [])) != len(ents) - len(kept):
+        return False
+    grid, wires = EM.get("grid", []), EM.get("wires", [])
+    if len(grid) != 1 or len(wires) != 1 or grid[0][0] is not plan or wires[0][0] is not plan:
+        return False
+    want = {placements[k].ir_node_id: e for k, e in kept}
+    for _p, m in (grid[0], wires[0]):
+        if set(m) != set(want) or any(m[k] is not want[k] for k in want):
+            return False
+    return res is a.self.blueprint
+
+
+from pyvc.ghost import ghost  # noqa: E402
+
+_PL = lambda i: ty.TObj("EntityPlacement", only=("EntityPlacement",), ftypes=(("ir_node_id", ty.TConcrete(i)),))  # noqa: E731
+CONTRACTS.append(Contract(
+    qualname=BEQ + "emit_from_plan",
+    params={"self": ty.TObj("BlueprintEmitter", only=("BlueprintEmitter",)),
+            "layout_plan": ty.TObj("LayoutPlan", only=("LayoutPlan",), ftypes=(("entity_placements", ty.TRecord((("b", _PL("b")), ("a", _PL("a"))))), ("blueprint_label", ty.TOpt(ty.Str)),
+                                                                              ("blueprint_description", ty.TOpt(ty.Str))))},
+    requires=[("(reset)", _em_reset)],
+    ensures=[("every placement is created once in sorted-id order; every created entity is appended (no copy) and mapped under its id for the grid and wiring steps; "
+              "a refused placement is an error", _emit_post)],
+    uses={"PlanEntityEmitter.create_entity": Contract(qualname=PE + "create_entity", params={"self": ty.TOpaque("s"), "placement": ty.TOpaque("p")}, effect=_em_create, verify=False, note="proved below"),
+          "opaque.append": Contract(qualname="draftsman::EntityList.append", params={"args": ty.TOpaque("a"), "kwargs": ty.TOpaque("kw")}, effect=_em_append, verify=False,
+                                    note="ASSUMED (draftsman): blueprint.entities.append(entity, copy=False) adds that very object"),
+          "opaque.error": Contract(qualname="dsl_compiler/src/common/diagnostics.py::ProgramDiagnostics.error", params={"args": ty.TOpaque("a"), "kwargs": ty.TOpaque("kw")},
+                                   effect=lambda ex, a: EM.setdefault("errors", []).append(a.args), verify=False, note="proved in contracts.c14: the error is counted"),
+          "BlueprintEmitter._materialize_power_grid": Contract(qualname=BEQ + "_materialize_power_grid", params={"self": ty.TOpaque("s"), "layout_plan": ty.TOpaque("p"), "entity_map": ty.TOpaque("m")},
+                                                               effect=_em_step("grid"), verify=False, note="copper wires between poles (C18: geometry check, bounded)"),
+          "BlueprintEmitter._materialize_connections": Contract(qualname=BEQ + "_materialize_connections", params={"self": ty.TOpaque("s"), "layout_plan": ty.TOpaque("p"), "entity_map": ty.TOpaque("m")},
+                                                                effect=_em_step("wires"), verify=False, note="proved above"),
+          "BlueprintEmitter._apply_blueprint_metadata": "skip",
+          "opaque.Blueprint": Contract(qualname="draftsman::Blueprint", params={"args": ty.TOpaque("a")}, effect=lambda ex, a: _SObj3(["ExternalBlueprint"], "new_blueprint", fields={"entities": Opaque("entity list")}, lazy=True),
+                                   verify=False, note="ASSUMED (draftsman): an empty blueprint")},
+    dynamic_types={"self": {"entity_factory": ty.TObj("PlanEntityEmitter", only=("PlanEntityEmitter",)), "diagnostics": ty.TOpaque("diag")}},
+    properties=("C07", "C09"), min_obligations=4, no_replay=True, note="plan of two placements"))
+
+
+CE = {}
+
+
+def _ce_reset(a):
+    CE.clear()
+    return True
+
+
+def _ce_rec(kind, ret=None):
+    def eff(ex, a):
+        CE.setdefault(kind, []).append(a)
+        return ret(ex, a) if ret else None
+    return eff
+
+
+def _new_entity(ex, a):
+    e = _SObj3(["ExternalEntity"], "fresh_entity", lazy=False)
+    e._fields["__new_of"] = a.args[0]
+    CE.setdefault("new", []).append(e)
+    return e
+
+
+def _deepcopy(ex, a):
+    e = _SObj3(["ExternalEntity"], "copied_entity", lazy=False)
+    e._fields["__copy_of"] = a.args[0]
+    CE.setdefault("copied", []).append(e)
+    return e
+
+
+def _create_post(kind):
+    def post(a, res):
+        p = a.placement
+        props = p.properties
+        if kind == "template":
+            if not (len(CE.get("copied", [])) == 1 and res is CE["copied"][0] and res._fields["__copy_of"] is props["entity_obj"] and not CE.get("new") and not CE.get("configured")):
+                return False
+        else:
+            if not (len(CE.get("new", [])) == 1 and res is CE["new"][0] and res._fields["__new_of"] is p.entity_type and not CE.get("copied")):
+                return False
+            conf = CE.get("configured", [])
+            want = {"decider-combinator": "decider", "arithmetic-combinator": "arithmetic", "constant-combinator": "constant"}[kind]
+            if not (len(conf) == 1 and conf[0][0] == want and conf[0][1].entity is res and conf[0][1].props is props):
+                return False
+        writes = CE.get("writes", [])
+        pw = props.get("property_writes")
+        if pw:
+            if not (len(writes) == 1 and writes[0].entity is res and writes[0].property_writes is pw and writes[0].placement is p):
+                return False
+        elif writes:
+            return False
+        desc = CE.get("described", [])
+        if not (len(desc) == 1 and res._fields.get("player_description") is a.placement._fields.get("@description")):
+            return False
+        ok_pos = (res._fields.get("position") is p.position) if p.position is not None else ("position" not in res._fields)
+        return res._fields.get("id") is p.ir_node_id and ok_pos
+    return post
+
+
+def _ce_conf(kind):
+    def eff(ex, a):
+        CE.setdefault("configured", []).append((kind, a))
+        return None
+    return eff
+
+
+def _ce_describe(ex, a):
+    CE.setdefault("described", []).append(a.debug_info)
+    return ghost(ex.args_ns.placement, "description", ty.Str)
+
+
+_CE_USES = {"opaque.deepcopy": Contract(qualname="copy::deepcopy", params={"args": ty.TOpaque("a")}, effect=_deepcopy, verify=False, note="ASSUMED (stdlib): an equal, independent copy"),
+            "opaque.new_entity": Contract(qualname="draftsman::new_entity", params={"args": ty.TOpaque("a")}, effect=_new_entity, verify=False, note="ASSUMED (draftsman): a default entity of that prototype"),
+            "PlanEntityEmitter._configure_decider": Contract(qualname=PE + "_configure_decider", params={"self": ty.TOpaque("s"), "entity": ty.TOpaque("e"), "props": ty.TOpaque("p")},
+                                                             effect=_ce_conf("decider"), verify=False, note="proved above"),
+            "PlanEntityEmitter._configure_arithmetic": Contract(qualname=PE + "_configure_arithmetic", params={"self": ty.TOpaque("s"), "entity": ty.TOpaque("e"), "props": ty.TOpaque("p")},
+                                                                effect=_ce_conf("arithmetic"), verify=False, note="proved above"),
+            "PlanEntityEmitter._configure_constant": Contract(qualname=PE + "_configure_constant", params={"self": ty.TOpaque("s"), "entity": ty.TOpaque("e"), "props": ty.TOpaque("p")},
+                                                              effect=_ce_conf("constant"), verify=False, note="proved in contracts.c11"),
+            "PlanEntityEmitter._apply_property_writes": Contract(qualname=PE + "_apply_property_writes", params={"self": ty.TOpaque("s"), "entity": ty.TOpaque("e"), "property_writes": ty.TOpaque("w"),
+                                                                                                                  "placement": ty.TOpaque("p")},
+                                                                 effect=_ce_rec("writes"), verify=False, note="entity conditions (C06: S3 scope with every prototype, bounded)"),
+            "fn:format_entity_description": Contract(qualname="dsl_compiler/src/emission/entity_emitter.py::format_entity_description", params={"debug_info": ty.TOpaque("a")}, effect=_ce_describe, verify=False,
+                                                     note="description text of the debug info (C20: box)")}
+_PW = ty.TUnion((ty.TNone(), ty.TConcrete({}), ty.TConcrete({"enable": {"type": "constant", "value": 1}})))
+for _kind in ("template", "decider-combinator", "arithmetic-combinator", "constant-combinator"):
+    _props = [("property_writes", _PW), ("debug_info", ty.TConcrete({"variable": "x"}))]
+    if _kind == "template":
+        _props.append(("entity_obj", ty.TObj("ExternalEntity", only=("ExternalEntity",))))
+    CONTRACTS.append(Contract(
+        qualname=PE + "create_entity",
+        params={"self": ty.TObj("PlanEntityEmitter", only=("PlanEntityEmitter",)),
+                "placement": ty.TObj("EntityPlacement", only=("EntityPlacement",), ftypes=(("entity_type", ty.TConcrete(_kind if _kind != "template" else "small-lamp")), ("ir_node_id", ty.Str),
+                                                                                          ("position", ty.TOpt(ty.TObj("Position", only=("ExternalPosition",)))), ("properties", ty.TRecord(tuple(_props)))))},
+        requires=[("(reset)", _ce_reset)],
+        ensures=[("a copy of the template, or a new entity of the placement's type configured by its combinator rule; property writes applied when present; description, id and position "
+                  "are the placement's", _create_post(_kind))],
+        uses=_CE_USES, dynamic_types={"self": {"diagnostics": ty.TOpaque("diag")}}, properties=("C07", "C09", "C20"), min_obligations=3, no_replay=True,
+        note="user entity (template)" if _kind == "template" else _kind))
+CONTRACTS += [v for v in _CE_USES.values() if isinstance(v, Contract) and v not in CONTRACTS and not v.qualname.startswith(PE)]
